@@ -191,7 +191,7 @@ impl C20 {
                 let hub = mk_addr("hub");
                 let mut bals: Vec<(String, u128)> = pick.iter().map(|x| (x.clone(), 1000)).collect();
                 bals.push((hub.clone(), 1000));
-                let t = c.new_cw20(false, &bals, None);
+                let t = c.new_cw20_admin(&bals);
                 let mut expected = vec![];
                 for (i, x) in pick.iter().enumerate() {
                     let exp = match i % 3 {
@@ -238,6 +238,24 @@ impl C20 {
                 if removed > 0 {
                     h.out.count("listings_after_removals");
                 }
+                if h.idx % 3 == 2 {
+                    // the token was deployed by a pre-0.14 release: no by-spender index exists; the real
+                    // migrate has to build it (old version strings with one- and two-digit minors)
+                    let v = *h.rng.pick(&["0.9.1", "0.2.3", "0.13.4", "0.10.0", "0.8.0-rc.1", "0.13.0"]);
+                    let keys: Vec<Vec<u8>> = c.dump(&t).into_iter().map(|kv| kv.0).filter(|k| k.windows(17).any(|w| w == b"allowance_spender")).collect();
+                    for k in keys {
+                        let _ = c.sudo(&t, &crate::chain::RawSudo::Remove { key: cosmwasm_std::Binary::from(k) });
+                    }
+                    let _ = c.sudo(&t, &crate::chain::RawSudo::SetVersion { contract: "crates.io:cw20-base".into(), version: v.into() });
+                    let code = c.codes.cw20;
+                    let r = c.migrate(&owner, &t, &cw20_base::msg::MigrateMsg {}, code);
+                    if !r.is_ok() {
+                        h.violate("C20/cw20.migrate/upgrade-from-older-version-failed", format!("migrate from {v}: {}", r.err_text()));
+                        return false;
+                    }
+                    h.out.count("listings_after_migration_from_pre_0_14");
+                    h.note(format!("token migrated from {v} (by-spender index rebuilt by migrate)"));
+                }
                 let cc = &c;
                 let hubr = &hub;
                 check_listing(
@@ -268,8 +286,27 @@ impl C20 {
                 };
                 let perms = name == "subkeys.AllPermissions";
                 let mut expected = vec![];
-                // about 40% extra entries that will be expired at query time, interleaved by address order
-                let extra: Vec<String> = if perms { vec![] } else { idx.iter().skip(n).take((n * 2 / 5).max(if n > 0 { 1 } else { 0 })).map(|i| a[*i].clone()).collect() };
+                // about 40% extra entries that will be expired at query time, interleaved by address order;
+                // every third history instead puts a CONTIGUOUS run of 30-40 expired entries (in key order)
+                // in front of / between the live ones
+                let mut pick = pick;
+                let extra: Vec<String> = if perms {
+                    vec![]
+                } else if h.idx % 3 == 1 && n >= 1 {
+                    let mut sorted: Vec<String> = a.clone();
+                    sorted.sort();
+                    let run = 30 + (h.idx as usize % 11);
+                    let start = (h.idx as usize / 3) % 5;
+                    let expired: Vec<String> = sorted.iter().skip(start).take(run).cloned().collect();
+                    let live: Vec<String> = sorted.iter().take(start).chain(sorted.iter().skip(start + run)).take(n).cloned().collect();
+                    pick = live;
+                    h.out.count("listings_with_a_contiguous_run_of_30_or_more_expired_entries");
+                    expired
+                } else {
+                    idx.iter().skip(n).take((n * 2 / 5).max(if n > 0 { 1 } else { 0 })).map(|i| a[*i].clone()).collect()
+                };
+                let n = pick.len();
+                let _ = n;
                 for (i, x) in pick.iter().enumerate() {
                     if perms {
                         let p = cw1_subkeys::state::Permissions { delegate: i % 2 == 0, redelegate: i % 3 == 0, undelegate: i % 5 == 0, withdraw: i % 7 == 0 };
@@ -577,7 +614,7 @@ impl Monitor for C20 {
         (LISTINGS.len() * SIZES.len()) as u64 + tier.pick(160, 60_000)
     }
     fn mandatory(&self) -> Vec<&'static str> {
-        let mut v = vec!["walks_completed", "walks_with_default_limit", "walks_with_limit_above_max", "walks_with_limit_zero", "states_with_more_than_30_items", "states_with_no_items", "listings_with_expired_entries_interleaved", "listings_after_removals"];
+        let mut v = vec!["walks_completed", "walks_with_default_limit", "walks_with_limit_above_max", "walks_with_limit_zero", "states_with_more_than_30_items", "states_with_no_items", "listings_with_expired_entries_interleaved", "listings_after_removals", "listings_after_migration_from_pre_0_14", "listings_with_a_contiguous_run_of_30_or_more_expired_entries"];
         v.extend([
             "listing_cw20.AllAccounts",
             "listing_cw20.AllAllowances",
